@@ -17,3 +17,5 @@ package code
 //@   assert at call store.PersistentCacheInterface.Delete [C12] within_limit: count < ca.maxRetries
 //@   assert at call store.PersistentCacheInterface.Upsert [C12] same_entry: $1 == pcLastGet && !$3
 //@   assert at call store.PersistentCacheInterface.Upsert [C12] only_below_limit: count < ca.maxRetries
+// (a wrong guess only raises the attempt counter: the entry keeps the stored code and the stored user)
+//@   assert at call store.PersistentCacheInterface.Upsert [C12] stored_code_kept: len(parts) == 3 && hasPrefix($2, parts[0] + ":")
